@@ -42,11 +42,14 @@ open Gojq
 abbrev V := JV
 abbrev Name := Nat
 
-/-- the text of `iteratorError{v}.Error()` as a jq value (what `catch` receives): a parameter of
-    the whole development — the theorems hold for every such function, the driver plugs in the
-    message model of Model/Native/Base.lean -/
+/-- what the fragment takes from the host library, as parameters of the whole development (the
+    theorems hold for every choice; the driver plugs in Model/Native/{Base,Index}.lean):
+    the text of `iteratorError{v}.Error()` as a jq value (what `catch` receives), the function
+    `funcIndex2` behind `.name` (`none`: it returns an error) and the text of that error -/
 class IterMsg where
   msg : V → V
+  index : V → V → Option V
+  indexMsg : V → V → V
 
 /-! ## the fragment and its reference semantics -/
 
@@ -59,6 +62,12 @@ inductive Q where
   | try_ (b : Q)
   /-- `try b catch h` -/
   | tryCatch (b h : Q)
+  /-- `.name` (`opindex` with a constant key) -/
+  | index (k : V)
+  /-- `if c then a else b end` (`if c then a end` is `ite c a id`; `elif` is an `ite` in `b`) -/
+  | ite (c a b : Q)
+  /-- `l // r` -/
+  | alt (l r : Q)
   deriving Inhabited
 
 inductive Err where
@@ -68,6 +77,8 @@ inductive Err where
   | noParam
   /-- `error` on input `v` (a `ValueError`) -/
   | user (v : V)
+  /-- `.name` on a value `funcIndex2` rejects -/
+  | idx (v k : V)
 
 /-- what `catch` receives: the error value of `error`, the message text otherwise
     (`opforktrybegin`: `ValueError` → `e.Value()`, else `err.Error()`) -/
@@ -75,6 +86,13 @@ def Err.toV [IterMsg] : Err → V
   | .notIter v => IterMsg.msg v
   | .noParam => .null
   | .user v => v
+  | .idx v k => IterMsg.indexMsg v k
+
+/-- `v == nil || v == false` (`opjumpifnot`) -/
+def falsy : V → Bool
+  | .null => true
+  | .bool false => true
+  | _ => false
 
 inductive Stop where
   | done | err (e : Err) | diverge
@@ -148,6 +166,24 @@ def eval [IterMsg] (defs : Name → Q) : Nat → Option Name → Clo → Q → V
     match eval defs n g ρ b v with
     | ⟨o, .err e⟩ => let rh := eval defs n g ρ h e.toV; ⟨o ++ rh.outs, rh.stop⟩
     | r => r
+  | _+1, _, _, .index k, v =>
+    match IterMsg.index v k with
+    | some w => ⟨[w], .done⟩
+    | none => ⟨[], .err (.idx v k)⟩
+  | n+1, g, ρ, .ite c a b, v =>
+    -- for each output of the condition, on the ORIGINAL input
+    let rc := eval defs n g ρ c v
+    match rc.stop with
+    | .diverge => ⟨[], .diverge⟩
+    | _ => Res.bindL (fun w => if falsy w then eval defs n g ρ b v else eval defs n g ρ a v) rc.outs rc.stop
+  | n+1, g, ρ, .alt l r, v =>
+    -- the outputs of `l` other than null/false; if there is none (and no error), `r`
+    let rl := eval defs n g ρ l v
+    let truthy := rl.outs.filter fun w => !falsy w
+    match rl.stop with
+    | .diverge => ⟨[], .diverge⟩
+    | .done => if truthy.isEmpty then eval defs n g ρ r v else ⟨truthy, .done⟩
+    | .err e => ⟨truthy, .err e⟩
 
 /-! ## bytecode (code.go) -/
 
@@ -160,6 +196,9 @@ inductive Instr where
   | forktrybegin (t : Nat) | forktryend
   /-- `opcall` of the native `error/0` -/
   | callerror
+  | dup | jumpifnot (t : Nat) | index (k : V)
+  /-- `env.expdepth++ / --`: only read in path mode, which the fragment does not have — no-ops here -/
+  | expbegin | expend
 
 abbrev Code := List Instr
 
@@ -208,6 +247,23 @@ def compile (entry : Name → Nat) (g : Option Name) (e p : Nat) : Q → List In
     let cb := compile entry g e (p+1) b
     let ch := compile entry g e (p + 1 + cb.length + 2) h
     [.forktrybegin (p + 1 + cb.length + 2)] ++ cb ++ [.forktryend, .jump (p + 1 + cb.length + 2 + ch.length)] ++ ch
+  | .index k => [.index k]
+  | .ite c a b =>
+    -- compileIf: dup; expbegin; c; expend; jumpifnot L; a; jump END; L: b; END:
+    let cc := compile entry g e (p+2) c
+    let ca := compile entry g e (p + 2 + cc.length + 2) a
+    let pl := p + 2 + cc.length + 2 + ca.length + 1
+    let cb := compile entry g e pl b
+    [.dup, .expbegin] ++ cc ++ [.expend, .jumpifnot pl] ++ ca ++ [.jump (pl + cb.length)] ++ cb
+  | .alt l r =>
+    -- compileAlt: push false; store found; fork L1; l; dup; jumpifnot L2; push true; store found;
+    -- jump END; L2: pop; backtrack; L1: load found; jumpifnot L3; backtrack; pop; L3: r; END:
+    let cl := compile entry g e (p+3) l
+    let a := p + 3 + cl.length
+    let cr := compile entry g e (a + 11) r
+    [.push (.bool false), .store e (p - e), .fork (a + 7)] ++ cl ++
+      [.dup, .jumpifnot (a + 5), .push (.bool true), .store e (p - e), .jump (a + 11 + cr.length),
+       .pop, .backtrack, .load e (p - e), .jumpifnot (a + 11), .backtrack, .pop] ++ cr
 
 /-- length of the code of a query (independent of where it is placed) -/
 def Q.size : Q → Nat
@@ -223,6 +279,9 @@ def Q.size : Q → Nat
   | .error => 1
   | .try_ b => b.size + 4
   | .tryCatch b h => b.size + h.size + 3
+  | .index _ => 1
+  | .ite c a b => c.size + a.size + b.size + 5
+  | .alt l r => l.size + r.size + 14
 
 /-- a program: `def f₀(g): defs[0]; def f₁(g): defs[1]; …; main` -/
 structure Prog where
@@ -239,6 +298,8 @@ def Q.Closed (nf : Nat) : Q → Prop
   | .call1 f a => f < nf ∧ a.Closed nf
   | .try_ b => b.Closed nf
   | .tryCatch b h => b.Closed nf ∧ h.Closed nf
+  | .ite c a b => c.Closed nf ∧ a.Closed nf ∧ b.Closed nf
+  | .alt l r => l.Closed nf ∧ r.Closed nf
   | _ => True
 
 /-- the query uses the parameter of the enclosing function -/
@@ -250,6 +311,8 @@ def Q.HasParam : Q → Prop
   | .call1 _ a => a.HasParam
   | .try_ b => b.HasParam
   | .tryCatch b h => b.HasParam ∨ h.HasParam
+  | .ite c a b => c.HasParam ∨ a.HasParam ∨ b.HasParam
+  | .alt l r => l.HasParam ∨ r.HasParam
   | _ => False
 
 /-- well-scoped programs (what the jq compiler accepts): calls go to defined functions and the
@@ -432,6 +495,25 @@ def step [IterMsg] (code : Code) : Cfg → Option Cfg
     | some .forktryend =>
       if bt then some (.fail fs (e.map .tryEnd) R)
       else some (.run (pc+1) st (⟨pc, st, fr, off⟩ :: fs) bt e R fr off cp)
+    | some .dup =>
+      match st with
+      | x :: s => some (.run (pc+1) (x :: x :: s) fs bt e R fr off cp)
+      | [] => none
+    | some (.jumpifnot t) =>
+      match st with
+      | .v x :: s => if falsy x then some (.run t s fs bt e R fr off cp) else some (.run (pc+1) s fs bt e R fr off cp)
+      | _ :: s => some (.run (pc+1) s fs bt e R fr off cp)     -- a closure is neither nil nor false
+      | [] => none
+    | some (.index k) =>
+      if bt then some (.fail fs e R) else
+      match st with
+      | .v x :: s =>
+        match IterMsg.index x k with
+        | some w => some (.run (pc+1) (.v w :: s) fs bt e R fr off cp)
+        | none => some (.fail fs (some (.plain (.idx x k))) R)
+      | _ => none
+    | some .expbegin => some (.run (pc+1) st fs bt e R fr off cp)
+    | some .expend => some (.run (pc+1) st fs bt e R fr off cp)
     | some .callerror =>
       if bt then some (.fail fs e R) else
       match st with
